@@ -130,6 +130,11 @@ LEVELS["C20"] = {
     "note": BASE_NOTE + " encoding/json is an opaque codec in the engine.",
 }
 
-NOT_APPLICABLE = {
-    "C19": "bookmark persistence rests on encoding/json Marshal/Unmarshal of the database file (reflection-driven, not encodable by the SSA executor) and on real file-system semantics; with the codec stubbed the remaining map logic is a thin wrapper over a Go map - not claimed rather than claimed vacuously (DESIGN section 6)",
+LEVELS["C19"] = {
+    "text": "Bounded symbolic model checking of the bookmark database (reduced scope): the real bookmarks commands and the real app.Context run on the engine's virtual file system; one "
+            "step from every stored database within the bound must leave exactly the model map (name normalisation incl. @/@@ prefixes and the default name, overwrite, failing unset "
+            "leaves the file bytes unchanged, clear), list must be ordered and @name arguments must resolve through the real FileRetriever. Names are symbolic bytes.",
+    "note": BASE_NOTE + " encoding/json is an opaque faithful codec: the persistence claim holds modulo its documented round-trip contract; the JSON text is outside.",
 }
+
+NOT_APPLICABLE = {}
